@@ -196,9 +196,9 @@ def arr_unique(arr):
 @numba.njit()
 def arr_union(ar1, ar2):
     if ar1.shape[0] == 0:
-        return ar2
+        return ar2.copy()
     elif ar2.shape[0] == 0:
-        return ar1
+        return ar1.copy()
     else:
         return arr_unique(np.concatenate((ar1, ar2)))
 
@@ -251,7 +251,7 @@ def sparse_sum(ind1, data1, ind2, data2):
     while i1 < ind1.shape[0]:
         val = data1[i1]
         if val != 0:
-            result_ind[nnz] = i1
+            result_ind[nnz] = ind1[i1]
             result_data[nnz] = val
             nnz += 1
         i1 += 1
@@ -259,7 +259,7 @@ def sparse_sum(ind1, data1, ind2, data2):
     while i2 < ind2.shape[0]:
         val = data2[i2]
         if val != 0:
-            result_ind[nnz] = i2
+            result_ind[nnz] = ind2[i2]
             result_data[nnz] = val
             nnz += 1
         i2 += 1
